@@ -58,9 +58,16 @@ int LLVMFuzzerInitialize(int *argc, char ***argv) {
     return 0;
 }
 
-#define OUTPUT_SIZE 64
+#define MAX_OUTPUT_SIZE 64
 
 int LLVMFuzzerTestOneInput(const uint8_t *data, size_t size) {
+    /* the first input byte selects the size of the (exact-size) output array, so that
+       every "complexity limit" boundary is within reach of short inputs */
+    unsigned int OUTPUT_SIZE;
+    if (size < 1)
+        return 0;
+    OUTPUT_SIZE = 1 + data[0] % MAX_OUTPUT_SIZE;
+    data++; size--;
     struct _cffi_parse_info_s info;
     char *input;
     _cffi_opcode_t *output;
